@@ -1,6 +1,147 @@
-(* C05 — Setter inputs cannot inject header lines or extra messages.  Statements only. *)
-From FH Require Import Model.Base Gen.GenC05 Model.ByteClassModel Model.Cookie Model.HeaderWrite Spec.HeadLines.
+(* C05 — Setter inputs cannot inject header lines or extra messages.
+   Statements only; proofs live in Proof/HeaderWriteProof.v.
+
+   The ENUMERATED setter list is the constructor list of HeaderWrite.rop (ResponseHeader) and HeaderWrite.qop
+   (RequestHeader); props/C05.json maps every exported Set*/Add* method of RequestHeader / ResponseHeader /
+   Request / Response to a constructor or to the "irrelevant" list, and the harness checks that mapping against the
+   real API by reflection on every run.
+
+   StatusMessage (status.go's keyed table) is a parameter: the theorems assume its answers are CR/LF-free, which
+   the harness checks on the real function for every code in -5..1200. *)
+From FH Require Import Model.Base Gen.GenC05 Model.ByteClassModel Model.Cookie Model.HeaderWrite Spec.HeadLines
+  Proof.HeaderWriteProof Check.C05Check.
 Open Scope N_scope.
 
-Example C05_placeholder : True.
-Proof. exact I. Qed.
+(* removeNewLines: no CR/LF in the result, length preserved, every other byte unchanged — for all byte strings *)
+Theorem C05_removeNewLines_spec : forall s,
+  no_crlf (removeNewLines s) = true /\ length (removeNewLines s) = length s /\
+  forall i, nth i (removeNewLines s) 0 = if is_crlf (nth i s 0) then 32 else nth i s 0.
+Proof. intros s. rewrite removeNewLines_neutralise. split; [apply neutralise_nc|]. split; [apply neutralise_length|apply neutralise_nth]. Qed.
+Print Assumptions C05_removeNewLines_spec.
+
+(* normalising key setters: the stored name is CR/LF-free and is the neutralised key up to ASCII case *)
+Theorem C05_key_normalised : forall k disable,
+  no_crlf (normalizeHeaderKey k disable) = true /\ map lower (normalizeHeaderKey k disable) = map lower (neutralise k).
+Proof. intros. split; [apply normalizeHeaderKey_nc|apply normalizeHeaderKey_lower]. Qed.
+Print Assumptions C05_key_normalised.
+
+(* every enumerated setter keeps every stored byte string (keys, values, status message, protocol, method, URI, host,
+   user agent, content type/encoding, server, Content-Length bytes, trailer names, cookies) CR/LF-free.
+   Only SetCanonical has a precondition: its key is taken as is ("assuming that key is in canonical form") — the
+   property speaks of header names "through the normalising setters". *)
+Theorem C05_setters_sanitise :
+  (forall r o, resp_clean r -> rop_pre o -> resp_clean (rstep r o)) /\
+  (forall q o, req_clean q -> qop_pre o -> req_clean (qstep q o)) /\
+  (forall ops, Forall rop_pre ops -> resp_clean (rrun ops)) /\
+  (forall ops, Forall qop_pre ops -> req_clean (qrun ops)).
+Proof. split; [exact rstep_clean|]. split; [exact qstep_clean|]. split; [exact rrun_clean|exact qrun_clean]. Qed.
+Print Assumptions C05_setters_sanitise.
+
+(* AppendBytes output = first line CRLF, then lines `key ": " value CRLF` with CR/LF-free key and value, then exactly
+   one empty line (render_head); the first line has no CR/LF inside *)
+Theorem C05_serialised_lines :
+  (forall StatusMessage, (forall n, nc (StatusMessage n)) -> forall ops date, Forall rop_pre ops -> nc date ->
+     let r := rrun ops in
+     RespAppendBytes StatusMessage date r = render_head (resp_first StatusMessage r) (resp_entries date r) /\
+     nc (resp_first StatusMessage r) /\ Forall (fun kv => nc (fst kv) /\ nc (snd kv)) (resp_entries date r)) /\
+  (forall ops, Forall qop_pre ops ->
+     let q := qrun ops in
+     ReqAppendBytes [] q = render_head (req_first q) (req_entries q) /\
+     nc (req_first q) /\ Forall (fun kv => nc (fst kv) /\ nc (snd kv)) (req_entries q)).
+Proof.
+  split.
+  - intros SM HSM ops date Hp Hd r. destruct (resp_one_message SM HSM ops date [] Hp Hd) as (A & B & C & _). auto.
+  - intros ops Hp q. destruct (req_one_message ops [] Hp) as (A & B & C & _). auto.
+Qed.
+Print Assumptions C05_serialised_lines.
+
+(* what the independent line reader (Spec/HeadLines.read_head) sees in the serialised head followed by ANY bytes `body`:
+   either it rejects everything (a caller-chosen header name was empty), or exactly one head — the first line written,
+   CR/LF-free names and values, every name either one fasthttp writes itself or the part before the first colon of a
+   case-variant of a neutralised key that was passed to a setter — and the bytes after the head are exactly `body`:
+   no additional header, no second message, no moved boundary *)
+Theorem C05_one_message :
+  (forall StatusMessage, (forall n, nc (StatusMessage n)) -> forall ops date body, Forall rop_pre ops -> nc date ->
+     peer_sees resp_auto (flat_map rop_keys ops) (resp_first StatusMessage (rrun ops)) body
+       (read_head (RespAppendBytes StatusMessage date (rrun ops) ++ body))) /\
+  (forall ops body, Forall qop_pre ops ->
+     peer_sees req_auto (flat_map qop_keys ops) (req_first (qrun ops)) body
+       (read_head (ReqAppendBytes [] (qrun ops) ++ body))).
+Proof.
+  split.
+  - intros SM HSM ops date body Hp Hd. now destruct (resp_one_message SM HSM ops date body Hp Hd) as (_ & _ & _ & D).
+  - intros ops body Hp. now destruct (req_one_message ops body Hp) as (_ & _ & _ & D).
+Qed.
+Print Assumptions C05_one_message.
+
+(* rejection happens only for an empty name, and the reader sees exactly as many fields as lines were written *)
+Theorem C05_no_extra_field : forall auto asked first es body,
+  (forall n, In n auto -> cut_colon n = n) -> In strTransferEncoding auto ->
+  nc first -> Forall (fun kv => nc (fst kv) /\ nc (snd kv)) es -> Forall (entry_ok auto asked) es ->
+  (read_head (render_head first es ++ body) = None <-> Exists (fun e => cut_colon (fst e) = []) es) /\
+  (forall f fs rest, read_head (render_head first es ++ body) = Some (Head f fs rest) -> length fs = length es).
+Proof. intros. now destruct (peer_sees_render auto asked first es body) as (_ & A & B). Qed.
+Print Assumptions C05_no_extra_field.
+
+(* whole messages: Response.Write / Request.Write put the body right after the head they serialise; the peer's head ends
+   where the body starts, and the Content-Length line carries the body length.  (Request.Write: host, request URI and
+   userinfo come from the URI object — arbitrary byte strings here — and go through the sanitising setters.) *)
+Theorem C05_body_boundary :
+  (forall StatusMessage, (forall n, nc (StatusMessage n)) -> forall ops date skip body, Forall rop_pre ops -> nc date ->
+     let '(r', out) := ResponseWrite StatusMessage date (rrun ops) skip body in
+     let sent := if negb (skip || mustSkipContentLength (rrun ops)) then body else [] in
+     out = render_head (resp_first StatusMessage r') (resp_entries date r') ++ sent /\
+     peer_sees resp_auto (flat_map rop_keys ops) (resp_first StatusMessage r') sent (read_head out) /\
+     (negb (skip || mustSkipContentLength (rrun ops)) = true ->
+        In (strContentLength, Ints.dec_digits (Z.of_nat (length body))) (resp_entries date r'))) /\
+  (forall ops parsed useHost uh uu user pass body q' out, Forall qop_pre ops ->
+     RequestWrite (qrun ops) parsed useHost uh uu user pass body = Some (q', out) ->
+     exists sent', (sent' = body \/ sent' = []) /\
+       out = render_head (req_first q') (req_entries q') ++ sent' /\
+       peer_sees req_auto (strAuthorization :: flat_map qop_keys ops) (req_first q') sent' (read_head out)).
+Proof. split; [exact ResponseWrite_one_message|exact RequestWrite_one_message]. Qed.
+Print Assumptions C05_body_boundary.
+
+(* proxy CONNECT: refused exactly when the target has CR or LF; otherwise one head with Host (+ Proxy-Authorization) *)
+Theorem C05_connect_target : forall addr auth body, nc auth ->
+  match connectRequest addr auth with
+  | None => nc addr -> False
+  | Some out =>
+      nc addr /\
+      exists fs, read_head (out ++ body) = Some (Head (s2b "CONNECT " ++ addr ++ s2b " HTTP/1.1") fs body) /\
+        map fst fs = s2b "Host" :: (match auth with [] => [] | _ => [s2b "Proxy-Authorization"] end) /\
+        Forall (fun nv => nc (fst nv) /\ nc (snd nv)) fs
+  end.
+Proof. exact connect_one_message. Qed.
+Print Assumptions C05_connect_target.
+
+(* ---- non-vacuity and scope ---- *)
+Definition D0 := s2b "Thu, 01 Jan 1970 00:00:00 GMT".
+Definition SM (_ : Z) := s2b "OK".
+Example C05_ex_injection_neutralised :
+  RespAppendBytes SM D0 (rrun [ROSetNoDefaultDate true; ROSet (h "580d0a45") (h "610d0a4576696c3a2031"); ROSetStatusMessage (h "4f4b0d0a0d0a")])
+  = s2b "HTTP/1.1 200 OK    " ++ [13; 10] ++ s2b "X  E: a  Evil: 1" ++ [13; 10; 13; 10].
+Proof. vm_compute. reflexivity. Qed.
+Example C05_ex_request :
+  ReqAppendBytes [] (qrun [QOSetMethod (h "4745540d0a58"); QOSetHost (h "680d0a483a69"); QOSetCookie (h "61") (h "623b0d0a633d64")])
+  = s2b "GET  X / HTTP/1.1" ++ [13; 10] ++ s2b "Host: h  H:i" ++ [13; 10] ++ s2b "Cookie: a=b   c=d" ++ [13; 10; 13; 10].
+Proof. vm_compute. reflexivity. Qed.
+(* scope: SetCanonical stores its key verbatim — a CR/LF in that key is outside the property ("normalising setters") *)
+Example C05_scope_setcanonical_key :
+  RespAppendBytes SM D0 (rrun [ROSetNoDefaultDate true; ROSetCanonical (h "580d0a593a7a") (h "76")])
+  = s2b "HTTP/1.1 200 OK" ++ [13; 10] ++ s2b "X" ++ [13; 10] ++ s2b "Y:z: v" ++ [13; 10; 13; 10].
+Proof. vm_compute. reflexivity. Qed.
+(* the property oracle used on the implementation's bytes does reject an injected line, a bare LF, an injected
+   second message and a moved body boundary *)
+Example C05_ex_oracle_sensitive :
+  prop_ok (CResp [ROSetNoDefaultDate true; ROSet (s2b "X") (s2b "a")] (s2b "OK")
+            (s2b "HTTP/1.1 200 OK" ++ [13;10] ++ s2b "X: a" ++ [13;10] ++ s2b "Evil: 1" ++ [13;10;13;10]) [13;10] []) = false /\
+  prop_ok (CResp [ROSetNoDefaultDate true; ROSet (s2b "X") (s2b "a")] (s2b "OK")
+            (s2b "HTTP/1.1 200 OK" ++ [13;10] ++ s2b "X: a" ++ [10] ++ s2b "b" ++ [13;10;13;10]) [13;10] []) = false /\
+  prop_ok (CResp [ROSetNoDefaultDate true; ROSet (s2b "X") (s2b "a")] (s2b "OK")
+            (s2b "HTTP/1.1 200 OK" ++ [13;10] ++ s2b "X: a" ++ [13;10;13;10] ++ s2b "HTTP/1.1 200 OK" ++ [13;10;13;10]) [13;10] []) = false /\
+  prop_ok (CResp [ROSetNoDefaultDate true; ROSet (s2b "X") (s2b "a")] (s2b "OK")
+            (s2b "HTTP/1.1 200 OK" ++ [13;10] ++ s2b "X: a" ++ [13;10] ++ s2b "X: b" ++ [13;10;13;10]) [13;10] []) = false /\
+  prop_ok (CResp [ROSetNoDefaultDate true; ROSet (s2b "X") (s2b "a")] (s2b "OK")
+            (s2b "HTTP/1.1 200 OK" ++ [13;10] ++ s2b "X: a" ++ [13;10;13;10]) [13;10] []) = true.
+Proof. vm_compute. repeat split; reflexivity. Qed.
